@@ -14,7 +14,10 @@
  *                 add -DSHIM_LOG_FILE to log to VERIF_READDIR_LOG instead of memory (whole tools)
  *
  * Environment (read at every first readdir of a stream, so an in-process harness may change it between cases):
- *   VERIF_READDIR_ORDER = native | sorted | reverse | seed:<n>     (default: native = pass through, still logged)
+ *   VERIF_READDIR_ORDER = native | sorted | reverse | seed:<n> | swaps:<n> | rot:<n> | halves
+ *                         (default: native = pass through, still logged; seed = uniform shuffle; swaps = sorted with one to
+ *                         three transpositions, i.e. nearly sorted; rot = sorted, rotated by a seed-derived offset; halves =
+ *                         even positions of the sorted list first, then the odd ones)
  *   VERIF_READDIR_LOG   = file to append the log to (LD_PRELOAD use); in SHIM_WRAP builds the log is kept in
  *                         memory and fetched with shim_readdir_take_log().
  * Log line:  "R <st_dev> <st_ino> <count> <hex name> <hex name> ...\n"   (dev/ino of the directory itself)
@@ -146,7 +149,9 @@ static shim_dir_t *shim_load(DIR *d)
 			sd->ents = ne;
 			max = nm;
 		}
-		memcpy(&sd->ents[sd->count++], e, sizeof(*e));
+		/* the record in libc's buffer is only d_reclen bytes long */
+		memset(&sd->ents[sd->count], 0, sizeof(*e));
+		memcpy(&sd->ents[sd->count++], e, e->d_reclen < sizeof(*e) ? e->d_reclen : sizeof(*e));
 	}
 
 	if (order != NULL && strcmp(order, "native") != 0 && sd->count > 1) {
@@ -172,6 +177,36 @@ static shim_dir_t *shim_load(DIR *d)
 				struct dirent t = sd->ents[i];
 				sd->ents[i] = sd->ents[j];
 				sd->ents[j] = t;
+			}
+		} else if (strncmp(order, "swaps:", 6) == 0) {
+			uint64_t s = strtoull(order + 6, NULL, 10) ^ (uint64_t)sd->count * 0x9E3779B97F4A7C15ULL;
+			size_t k = 1 + (size_t)(splitmix(&s) % 3);
+			while (k-- > 0) {
+				size_t a = (size_t)(splitmix(&s) % sd->count), b = (size_t)(splitmix(&s) % sd->count);
+				struct dirent t = sd->ents[a];
+				sd->ents[a] = sd->ents[b];
+				sd->ents[b] = t;
+			}
+		} else if (strncmp(order, "rot:", 4) == 0) {
+			uint64_t s = strtoull(order + 4, NULL, 10) ^ (uint64_t)sd->count * 0x9E3779B97F4A7C15ULL;
+			size_t k = 1 + (size_t)(splitmix(&s) % (sd->count - 1));
+			struct dirent *tmp = malloc(sd->count * sizeof(*tmp));
+			if (tmp != NULL) {
+				for (i = 0; i < sd->count; ++i)
+					tmp[i] = sd->ents[(i + k) % sd->count];
+				memcpy(sd->ents, tmp, sd->count * sizeof(*tmp));
+				free(tmp);
+			}
+		} else if (strcmp(order, "halves") == 0) {
+			struct dirent *tmp = malloc(sd->count * sizeof(*tmp));
+			if (tmp != NULL) {
+				size_t pos = 0;
+				for (i = 0; i < sd->count; i += 2)
+					tmp[pos++] = sd->ents[i];
+				for (i = 1; i < sd->count; i += 2)
+					tmp[pos++] = sd->ents[i];
+				memcpy(sd->ents, tmp, sd->count * sizeof(*tmp));
+				free(tmp);
 			}
 		}
 	}
